@@ -448,6 +448,7 @@ func classify(m sg.Model, obs *vf.Obs) {
 	})
 
 	// HCL-only constructions
+	o.ClassIf(len(m.Locals) == 0 && len(m.Exprs) > 0, "hcl_functions_without_any_locals_block")
 	if len(m.Locals) > 0 {
 		o.Class(fmt.Sprintf("locals_blocks_%d", len(m.Locals)))
 	}
